@@ -31,7 +31,7 @@ LEVEL = 'fault_enumeration'
 BUDGET_S = {'quick': 40, 'thorough': 600}
 FLOORS = {'quick': {'tasks': 190, 'required_tiles_checked': 9500, 'forbidden_tiles_checked': 2600,
                     'interruption_points': 4300, 'resumed_runs': 2500, 'resume_with_saved_progress': 1900,
-                    'resume_skipped_work': 2700, 'double_interruptions': 600},
+                    'resume_skipped_work': 2700, 'double_interruptions': 600, 'cases_with_tasks_from_seed_configuration': 12},
           'thorough': {'tasks': 780, 'required_tiles_checked': 33000, 'forbidden_tiles_checked': 25000,
                        'interruption_points': 39000, 'resumed_runs': 12000, 'resume_with_saved_progress': 9000,
                        'resume_skipped_work': 30000, 'double_interruptions': 4000}}
@@ -520,6 +520,11 @@ def gen_spec(rng):
             'skip_geoms': rng.choice([0, 0, 0, 1, 2, 2]), 'mode': mode,
             'partial': (rng.choice([0.0, 0.0, 0.3, 0.7]) if mode != 'all' else 0.0),
             'salt': rng.randrange(1 << 30), 'rescale': rng.random() < 0.15}
+    if mode == 'all' and not spec['rescale'] and rng.random() < 0.2:
+        # the tasks come out of the real SeedConfiguration.seed_tasks(): one seed section per generated task, each with two
+        # caches on the grid (sections / caches / grids are what tells tasks apart in the progress file)
+        spec['via_config'] = True
+        spec['tasks'] = [dict(t, cache=c_, lshape='cfg_' + t['lshape']) for t in tasks for c_ in ('cA', 'cB')]
     if spec['rescale']:
         # what SeedConfiguration.seed_tasks() does for caches with upscale_tiles / downscale_tiles: one SeedTask per
         # level, all with the same name / cache / grid (rescale_tiles > 0: deepest level first)
@@ -801,6 +806,9 @@ class World(object):
         self.gi = GridInfo(self.grid, spec['meta_size'])
         self.tm = RecTileManager(self.grid, self.gi, spec)
         self.tasks = []
+        if spec.get('via_config'):
+            self._tasks_via_config(spec)
+            return
         for t in spec['tasks']:
             md = dict(name=t['name'], cache_name='cache', grid_name='grid')
             cov = mp_coverage(t['coverage'], self.grid)
@@ -1287,6 +1295,64 @@ DIRECTED = {
 }
 
 
+class _FakeCache(object):
+    supports_timestamp = True
+
+
+def _world_tasks_via_config(self, spec):
+    """drive the real SeedConfiguration (mapproxy/seed/config.py) with stand-in tile managers: the SeedTask objects, their
+    md / id / levels / coverage are made by the real code"""
+    from mapproxy.seed.config import SeedConfiguration
+    from mapproxy.srs import SRS
+    from mapproxy.util.coverage import BBOXCoverage, GeomCoverage, MultiCoverage
+    world = self
+
+    def raw_cov(c):
+        if c['kind'] == 'bbox':
+            return BBOXCoverage(list(c['bbox']), SRS(c['srs']))
+        if c['kind'] == 'geom':
+            return GeomCoverage(geom_of(c['polys']), SRS(c['srs']))
+        if c['kind'] == 'multi':
+            return MultiCoverage([raw_cov(p_) for p_ in c['parts']])
+        raise AssertionError(c['kind'])
+    tms = {}
+
+    class FakeSeedingConf(object):
+        grids = {'grid': world.grid}
+
+        def __init__(self, cov):
+            self._cov = cov
+
+        def coverage(self, name):
+            return raw_cov(self._cov)
+
+        def cache(self, name):
+            if name not in tms:
+                tm = RecTileManager(world.grid, world.gi, spec)
+                tm.cache = _FakeCache()
+                tms[name] = tm
+            return {'grid': tms[name]}
+    names = []
+    for t in spec['tasks']:
+        if t['name'] not in names:
+            names.append(t['name'])
+    for nm in names:
+        ts = [t for t in spec['tasks'] if t['name'] == nm]
+        conf = {'caches': [t['cache'] for t in ts], 'levels': list(ts[0]['levels'])}
+        if ts[0]['coverage']['kind'] != 'none':
+            conf['coverages'] = ['cov']
+        sc = SeedConfiguration(nm, conf, FakeSeedingConf(ts[0]['coverage']))
+        made = list(sc.seed_tasks())
+        if len(made) != len(ts):
+            raise RuntimeError('SeedConfiguration produced %d tasks for %d caches' % (len(made), len(ts)))
+        self.tasks.extend(made)
+    self.tm = tms[spec['tasks'][0]['cache']]
+    self.tms = tms
+
+
+World._tasks_via_config = _world_tasks_via_config
+
+
 def gen_cases(run):
     for k, name in enumerate(sorted(DIRECTED)):
         yield {'i': -1 - k, 'directed': name}
@@ -1299,6 +1365,8 @@ def run_case(run, case):
     rng = run.rng('task', case['i'])
     spec = case.get('spec') or (DIRECTED[case['directed']] if 'directed' in case else gen_spec(rng))
     world = World(spec)
+    if spec.get('via_config'):
+        run.hit('cases_with_tasks_from_seed_configuration')
     if 'directed' in case:
         run.count('directed_cases')
     gi = world.gi
